@@ -105,12 +105,18 @@ class _Tag:
         return ("T", Xb, yb)
 
 
+class _TagSized(_Tag):
+    """a callable transform that is also a (currently empty) container: a pipeline object whose len() is its number of extra steps"""
+    def __len__(self):
+        return 0
+
+
 def check_loader(ns, n, bs, mode):
     np = ns.np
     X = np.array([[float(i), i + 0.5] for i in range(n)], dtype=np.float32).reshape(n, 2)
     y = np.arange(n, dtype=np.float32)
     arg = dict(n=n, batch_size=bs, transform=mode)
-    tag = _Tag() if mode == "tagging" else None
+    tag = (_TagSized() if mode == "tagging-sized" else _Tag()) if mode.startswith("tagging") else None
     try:
         if mode == "none":
             dl = ns.data.DataLoader(X, y, bs)
@@ -139,7 +145,7 @@ def check_loader(ns, n, bs, mode):
             out.append(V("loader:batch-count:" + label, f"{label} iteration yielded {len(got)} batches, want {want_n}", args=arg))
             continue
         for i, item in enumerate(got):
-            if mode == "tagging":
+            if mode.startswith("tagging"):
                 if not (isinstance(item, tuple) and len(item) == 3 and item[0] == "T"):
                     out.append(V("loader:transform-bypassed", "batch was not passed through the transform", args=arg)); break
                 Xb, yb = item[1], item[2]
@@ -153,7 +159,7 @@ def check_loader(ns, n, bs, mode):
             wantids = np.arange(i * bs, (i + 1) * bs)
             if not (np.array_equal(yb, wantids) and np.array_equal(Xb[:, 0], wantids) and np.array_equal(Xb[:, 1], wantids + 0.5)):
                 out.append(V("loader:alignment", f"batch {i} is not the consecutive aligned slice", args=arg, y=yb.tolist())); break
-    if mode == "tagging" and not out:
+    if mode.startswith("tagging") and not out:
         if len(tag.calls) != want_n * 2 + len(partial):
             out.append(V("loader:transform-calls", "transform not called exactly once per yielded batch", args=arg,
                          calls=len(tag.calls)))
@@ -162,12 +168,21 @@ def check_loader(ns, n, bs, mode):
     return out
 
 
-def check_onehot(ns, labels):
+def check_onehot(ns, labels, form="list"):
     np = ns.np
+    given = labels
+    if form == "ndarray":
+        given = np.array(labels)
+    elif form == "column":
+        given = np.array(labels).reshape(-1, 1)
+    elif form == "nested":
+        given = [[l] for l in labels]
     try:
-        enc = ns.data.one_hot_encode(labels)
+        enc = ns.data.one_hot_encode(given)
     except Exception as e:
-        return [V("onehot:raises", f"one_hot_encode raised {type(e).__name__}", labels=labels, error=str(e)[:200])]
+        if form in ("column", "nested"):
+            return []               # labels as a column / nested lists are not promised to be accepted: refusing is fine, a wrong encoding is not
+        return [V("onehot:raises" + ("" if form == "list" else ":" + form), f"one_hot_encode raised {type(e).__name__} for labels given as {form}", labels=labels, error=str(e)[:200])]
     uniq = sorted(set(labels))
     want = np.zeros((len(labels), len(uniq)), dtype=int)
     for r, l in enumerate(labels):
@@ -176,7 +191,7 @@ def check_onehot(ns, labels):
     if len(labels) == 0:
         return []
     if enc.shape != want.shape or not np.array_equal(enc, want):
-        return [V("onehot:value", "one-hot row is not the unit vector at the index of the label among sorted distinct labels",
+        return [V("onehot:value" + ("" if form == "list" else ":" + form), f"one-hot row is not the unit vector at the index of the label among sorted distinct labels (labels given as {form})",
                   labels=labels, got=enc.tolist())]
     return []
 
@@ -198,7 +213,7 @@ def run_case(ns, ctx, case):
     elif case["kind"] == "loader":
         n = case["n"]
         for bs in range(1, n + 4):
-            for mode in ("none", "tagging"):
+            for mode in ("none", "tagging") + (("tagging-sized",) if bs % 3 == 1 else ()):
                 viol += check_loader(ns, n, bs, mode)
                 evals += 1
                 if n >= 2:
@@ -216,6 +231,10 @@ def run_case(ns, ctx, case):
                 labels = list(pool) + labels             # make sure every label of a small pool occurs
             viol += check_onehot(ns, labels)
             evals += 1
+            if labels and not isinstance(labels[0], bool) and len({type(l) for l in labels}) == 1:
+                form = ["ndarray", "column", "nested"][k % 3]
+                viol += check_onehot(ns, labels, form)
+                evals += 1
             if len(set(labels)) >= 2:
                 keys.append(("onehot", tuple(labels)))
         counters["onehot_calls"] = evals
